@@ -77,10 +77,37 @@ theorem nsmAfter_append (v : BidiClass) : ∀ (S : List BidiClass) (nS : List Bo
         (by simp at hf; omega), sweepL_true]
       simp
 
+theorem sweepL_idem (v : BidiClass) : ∀ (ns : List Bool) (ts : List BidiClass),
+    sweepL v ns (sweepL v ns ts) = sweepL v ns ts
+  | [], ts => by rw [sweepL_nil, sweepL_nil]
+  | false :: ns, ts => by rw [sweepL_false, sweepL_false]
+  | true :: ns, [] => rfl
+  | true :: ns, t :: ts => by rw [sweepL_true, sweepL_true, sweepL_idem v ns ts]
+
+/-- the sweep after the opening bracket over `M`, the closing bracket (already typed `v`) and `Z`:
+    whether or not it runs on past the closing bracket (an original NSM, flag `nc`), the sweep after
+    the closing bracket gives the same result -/
+theorem sweepL_append_mid (v : BidiClass) (nc : Bool) (nZ : List Bool) (tZ : List BidiClass) :
+    ∀ (nM : List Bool) (tM : List BidiClass), nM.length = tM.length →
+      ∃ X, sweepL v (nM ++ nc :: nZ) (tM ++ v :: tZ) = sweepL v nM tM ++ v :: X ∧
+        sweepL v nZ X = sweepL v nZ tZ ∧ X.length = tZ.length
+  | [], [], _ => by
+    cases nc with
+    | false => exact ⟨tZ, by rw [List.nil_append, List.nil_append, sweepL_false, sweepL_nil, List.nil_append], rfl, rfl⟩
+    | true =>
+      exact ⟨sweepL v nZ tZ, by rw [List.nil_append, List.nil_append, sweepL_true, sweepL_nil, List.nil_append],
+        sweepL_idem v nZ tZ, sweepL_length v nZ tZ⟩
+  | [], _ :: _, h => by simp at h
+  | _ :: _, [], h => by simp at h
+  | false :: nM, t :: tM, _ => ⟨tZ, by rw [List.cons_append, sweepL_false, sweepL_false], rfl, rfl⟩
+  | true :: nM, t :: tM, h => by
+    obtain ⟨X, h1, h2, h3⟩ := sweepL_append_mid v nc nZ tZ nM tM (by simpa using h)
+    exact ⟨X, by rw [List.cons_append, List.cons_append, sweepL_true, sweepL_true, h1, List.cons_append], h2, h3⟩
+
 /-- the Spec's writes for one pair, on a list split at the two brackets -/
 theorem spec_writes (v : BidiClass) (tA tM tZ : List BidiClass) (nA nM nZ : List Bool) (x y : BidiClass)
-    (no : Bool) (hA : tA.length = nA.length) (hM : tM.length = nM.length) (hZ : tZ.length = nZ.length) :
-    let NS := nA ++ no :: (nM ++ false :: nZ)
+    (no nc : Bool) (hA : tA.length = nA.length) (hM : tM.length = nM.length) (hZ : tZ.length = nZ.length) :
+    let NS := nA ++ no :: (nM ++ nc :: nZ)
     let L1 := ((tA ++ x :: (tM ++ y :: tZ)).set tA.length v).set (tA.length + 1 + tM.length) v
     Spec.n0One.nsmAfter NS v (Spec.n0One.nsmAfter NS v L1.length (tA.length + 1) L1).length
         (tA.length + 1 + tM.length + 1) (Spec.n0One.nsmAfter NS v L1.length (tA.length + 1) L1) =
@@ -94,18 +121,19 @@ theorem spec_writes (v : BidiClass) (tA tM tZ : List BidiClass) (nA nM nZ : List
     have e3 : tA.length + 1 + tM.length = (tA ++ v :: tM).length := by simp; omega
     rw [e2, e3]
     simp
-  have hNS1 : NS = (nA ++ [no]) ++ (nM ++ false :: nZ) := by simp [NS]
+  obtain ⟨X, hX1, hX2, hX3⟩ := sweepL_append_mid v nc nZ tZ nM tM hM.symm
+  have hNS1 : NS = (nA ++ [no]) ++ (nM ++ nc :: nZ) := by simp [NS]
   have hstep1 : Spec.n0One.nsmAfter NS v L1.length (tA.length + 1) L1 =
-      (tA ++ [v]) ++ (sweepL v nM tM ++ v :: tZ) := by
+      (tA ++ [v]) ++ (sweepL v nM tM ++ v :: X) := by
     have hl : tA.length + 1 = (tA ++ [v]).length := by simp
-    rw [hl, hL1, hNS1, nsmAfter_append v _ _ _ _ _ (by simp [hA]) (by simp [hM, hZ]) (by simp; omega),
-      sweepL_append_stop v nZ v tZ nM tM hM.symm]
+    rw [hl, hL1, hNS1, nsmAfter_append v _ _ _ _ _ (by simp [hA]) (by simp [hM, hZ]) (by simp; omega), hX1]
   rw [hstep1]
-  have hP2 : (tA ++ [v]) ++ (sweepL v nM tM ++ v :: tZ) = (tA ++ [v] ++ sweepL v nM tM ++ [v]) ++ tZ := by simp
-  have hNS2 : NS = (nA ++ [no] ++ nM ++ [false]) ++ nZ := by simp [NS]
+  have hP2 : (tA ++ [v]) ++ (sweepL v nM tM ++ v :: X) = (tA ++ [v] ++ sweepL v nM tM ++ [v]) ++ X := by simp
+  have hNS2 : NS = (nA ++ [no] ++ nM ++ [nc]) ++ nZ := by simp [NS]
   have hl2 : tA.length + 1 + tM.length + 1 = (tA ++ [v] ++ sweepL v nM tM ++ [v]).length := by
     simp [sweepL_length]; omega
-  rw [hl2, hP2, hNS2, nsmAfter_append v _ _ _ _ _ (by simp [sweepL_length, hA, hM]) hZ (by simp; omega)]
+  rw [hl2, hP2, hNS2, nsmAfter_append v _ _ _ _ _ (by simp [sweepL_length, hA, hM]) (by rw [hX3, hZ])
+    (by simp; omega), hX2]
   simp
 
 /-! ### the crate's sweep, read at the kept units -/
@@ -137,46 +165,28 @@ theorem first_kept_lt (keep : Nat → Bool) : ∀ (S : List Nat), S.Pairwise (·
       · simpa using hs
       · exact h3 i hi hlt
 
-/-- the crate's "NSMs after the bracket" sweep along `S` (it stops at the first unit that is
-    neither an original NSM nor BN), read at the kept units of `S`, is the Spec's sweep over the
-    kept units — if the removed units in front of a kept original NSM still carry BN -/
+/-- the crate's "NSMs after the bracket" sweep along `S` (it overwrites original NSMs, steps over
+    removed units, and stops at the first other unit), read at the kept units of `S`, is the
+    Spec's sweep over the kept units -/
 theorem sweep_proj (ocs pcs : Classes) (v : BidiClass) : ∀ (S : List Nat), S.Pairwise (· < ·) →
-    (∀ i ∈ S, keepU ocs i = true → cget pcs i ≠ BN) →
-    (∀ k ∈ S, keepU ocs k = true → cget ocs k = NSM →
-      (∀ i ∈ S, i < k → keepU ocs i = false ∨ cget ocs i = NSM) →
-      ∀ p ∈ S, p < k → keepU ocs p = false → cget pcs p = BN) →
-    (S.filter (keepU ocs)).map (fun j => if j ∈ S.takeWhile (condP ocs pcs) then v else cget pcs j) =
+    (S.filter (keepU ocs)).map
+        (fun j => if j ∈ S.takeWhile (condP ocs) ∧ nsmU ocs j = true then v else cget pcs j) =
       sweepL v ((S.filter (keepU ocs)).map (fun i => cget ocs i == NSM))
         ((S.filter (keepU ocs)).map (cget pcs)) := by
   intro S
   induction S with
-  | nil => intro _ _ _; rfl
+  | nil => intro _; rfl
   | cons s S ih =>
-    intro hp hK H
+    intro hp
     rw [List.pairwise_cons] at hp
-    by_cases hc : condP ocs pcs s = true
+    by_cases hc : condP ocs s = true
     · -- the sweep passes `s`
-      have hcs := (condP_iff _ _ _).1 hc
-      have hKS : ∀ i ∈ S, keepU ocs i = true → cget pcs i ≠ BN := fun i hi => hK i (by simp [hi])
-      have HS : ∀ k ∈ S, keepU ocs k = true → cget ocs k = NSM →
-          (∀ i ∈ S, i < k → keepU ocs i = false ∨ cget ocs i = NSM) →
-          ∀ p ∈ S, p < k → keepU ocs p = false → cget pcs p = BN := by
-        intro k hk hkk hkn hbefore p hpS hpk hpr
-        refine H k (by simp [hk]) hkk hkn ?_ p (by simp [hpS]) hpk hpr
-        intro i hi hik
-        simp only [List.mem_cons] at hi
-        rcases hi with rfl | hi
-        · rcases hcs with h | h
-          · exact Or.inr h
-          · left
-            cases hki : keepU ocs i with
-            | false => rfl
-            | true => exact absurd h (hK i (by simp) hki)
-        · exact hbefore i hi hik
-      have ih' := ih hp.2 hKS HS
+      have hcs := (condP_iff _ _).1 hc
+      have ih' := ih hp.2
       have hcongr : (S.filter (keepU ocs)).map
-            (fun j => if j ∈ (s :: S).takeWhile (condP ocs pcs) then v else cget pcs j) =
-          (S.filter (keepU ocs)).map (fun j => if j ∈ S.takeWhile (condP ocs pcs) then v else cget pcs j) := by
+            (fun j => if j ∈ (s :: S).takeWhile (condP ocs) ∧ nsmU ocs j = true then v else cget pcs j) =
+          (S.filter (keepU ocs)).map
+            (fun j => if j ∈ S.takeWhile (condP ocs) ∧ nsmU ocs j = true then v else cget pcs j) := by
         apply List.map_congr_left
         intro j hj
         have hjS : j ∈ S := (List.mem_filter.1 hj).1
@@ -186,47 +196,32 @@ theorem sweep_proj (ocs pcs : Classes) (v : BidiClass) : ∀ (S : List Nat), S.P
       · have hnsm : cget ocs s = NSM := by
           rcases hcs with h | h
           · exact h
-          · exact absurd h (hK s (by simp) hks)
+          · rw [hks] at h; cases h
         have hb : (cget ocs s == NSM) = true := by rw [hnsm]; rfl
+        have hn : nsmU ocs s = true := hb
         rw [List.filter_cons, if_pos hks]
         simp only [List.map_cons, hb, sweepL_true]
         rw [hcongr, ih']
-        simp [hc]
+        simp [hc, hn]
       · have hks' : keepU ocs s = false := by simpa using hks
         rw [List.filter_cons, if_neg hks, hcongr, ih']
     · -- the sweep stops at `s`
-      have hc' : condP ocs pcs s = false := by simpa using hc
-      have hid : (fun j => if j ∈ (s :: S).takeWhile (condP ocs pcs) then v else cget pcs j) = cget pcs := by
+      have hc' : condP ocs s = false := by simpa using hc
+      have hid : (fun j => if j ∈ (s :: S).takeWhile (condP ocs) ∧ nsmU ocs j = true then v else cget pcs j) =
+          cget pcs := by
         funext j; simp [hc']
       rw [hid]
-      have hns : cget ocs s ≠ NSM := fun h => hc ((condP_iff _ _ _).2 (Or.inl h))
-      have hnb : cget pcs s ≠ BN := fun h => hc ((condP_iff _ _ _).2 (Or.inr h))
-      by_cases hks : keepU ocs s = true
-      · have hb : (cget ocs s == NSM) = false := by
-          cases hb : cget ocs s == NSM with
-          | false => rfl
-          | true => exact absurd ((beq_iff _ _).1 hb) hns
-        rw [List.filter_cons, if_pos hks]
-        simp only [List.map_cons, hb, sweepL_false]
-      · have hks' : keepU ocs s = false := by simpa using hks
-        rw [List.filter_cons, if_neg hks]
-        cases hf : S.filter (keepU ocs) with
-        | nil => rfl
-        | cons k rest =>
-          obtain ⟨hkS, hkk, hfirst⟩ := first_kept_lt (keepU ocs) S hp.2 k rest hf
-          have hb : (cget ocs k == NSM) = false := by
-            cases hb : cget ocs k == NSM with
-            | false => rfl
-            | true =>
-              exfalso
-              apply hnb
-              refine H k (by simp [hkS]) hkk ((beq_iff _ _).1 hb) ?_ s (by simp) (hp.1 k hkS) hks'
-              intro i hi hik
-              simp only [List.mem_cons] at hi
-              rcases hi with rfl | hi
-              · exact Or.inl hks'
-              · exact Or.inl (hfirst i hi hik)
-          simp only [List.map_cons, hb, sweepL_false]
+      have hns : cget ocs s ≠ NSM := fun h => hc ((condP_iff _ _).2 (Or.inl h))
+      have hks : keepU ocs s = true := by
+        cases hk : keepU ocs s with
+        | true => rfl
+        | false => exact absurd ((condP_iff _ _).2 (Or.inr hk)) hc
+      have hb : (cget ocs s == NSM) = false := by
+        cases hb : cget ocs s == NSM with
+        | false => rfl
+        | true => exact absurd ((beq_iff _ _).1 hb) hns
+      rw [List.filter_cons, if_pos hks]
+      simp only [List.map_cons, hb, sweepL_false]
 
 /-! ### the two searches -/
 
